@@ -55,6 +55,18 @@ def main():
             ctx.fail("correspondence", f"{pid}/harness/crash", f"the correspondence/oracle harness could not run: {type(e).__name__}: {e}\n{tb[-1500:]}")
         if any(f.kind in ("translator", "coq") for f in ctx.failures) and r == 0 and len([f for f in ctx.failures if f.has_input]) > 0:
             break       # a broken tie with a failing input already found: further rounds add nothing
+    # vacuity guard: on an otherwise green run every activity counter of the module must reach a floor recorded from a known
+    # good run (harness/expected_counts.json, 30 % of the quick-tier counts): an oracle that silently stopped running is an error
+    if replay is None and not ctx.failures:
+        import json as _json
+        try:
+            with open(os.path.join(os.path.dirname(os.path.abspath(__file__)), "expected_counts.json")) as fh:
+                floors = _json.load(fh).get(pid, {})
+        except FileNotFoundError:
+            floors = {}
+        low = {k: (ctx.distribution.get(k, 0), m) for k, m in floors.items() if ctx.distribution.get(k, 0) < m}
+        if low:
+            ctx.require("activity counters below their floor (counter: got, floor): " + ", ".join(f"{k}: {g}, {m}" for k, (g, m) in sorted(low.items())[:8]), False)
     if replay is not None:
         keys = {replay.get("key")} | {w.get("key") for w in replay.get("no_longer_checks", [])}
         again = [f for f in ctx.failures if f.key in keys]
